@@ -1,6 +1,6 @@
 (** C10 — changing representation loses nothing: the obligations, written out in full. *)
 From Coq Require Import List NArith ZArith String.
-From SK Require Import lib.LGraph lib.StrJoin model.C10_Model proof.C10_Proof proof.C10_Hydrogen proof.C10_Routes.
+From SK Require Import lib.LGraph lib.StrJoin model.C10_Model proof.C10_Proof proof.C10_Hydrogen proof.C10_Routes proof.C10_GmlWrite.
 Import ListNotations.
 Local Open Scope Z_scope.
 
@@ -38,3 +38,23 @@ Theorem C10_two_routes_string_its :
     smart_to_gml r p eo true reindex explicit_h = its_to_gml (its_construct r p eo) true reindex explicit_h.
 Proof. exact two_routes_string_its. Qed.
 Print Assumptions C10_two_routes_string_its.
+
+(** ITS -> GML -> ITS (full export of the graph given, ids kept: core=False, reindex=False, explicit_hydrogen=False).
+    For every reaction-centre-shaped ITS graph c ([its_ok]: unique ids, one entry per bond, typesGH present with the
+    same element in both halves and an element symbol in [A-Za-z*]+, element/charge attributes = reactant half, bond
+    orders (before, after) from {absent, 1, 1.5, 2, 3} not both absent, standard_order = before - after) the graph read
+    back from the written rule has
+      - exactly the same atoms (node ids),
+      - at every atom the same element and the same charge on BOTH sides (typesGH), and
+      - exactly the same bond dictionary ((before, after) orders and standard_order) at every pair of atoms.
+    What changes, stated explicitly by [gml_node]: hcount becomes 0 and aromatic False (GML carries neither), atom_map
+    becomes the node id, 'neighbors' is not modelled.  Node and adjacency ORDER are not claimed. *)
+Theorem C10_gml_roundtrip :
+  forall c : gr, its_ok c = true ->
+    let I' := gml_to_its (its_to_gml c false false false) in
+    (forall n, has_node I' n = has_node c n) /\
+    (forall n a, label c n = Some a ->
+       label I' n = Some (gml_node n (tg_el (tG_of a)) (tg_ch (tG_of a)) (tg_ch (tH_of a)))) /\
+    (forall u v, adj I' u v = adj c u v).
+Proof. exact gml_roundtrip. Qed.
+Print Assumptions C10_gml_roundtrip.
